@@ -148,6 +148,25 @@ func langTemplate(m zconst.LangMap, dtype, code string) string {
 	return m[dtype]["fallback"]
 }
 
+// c11PreHistory optionally runs an earlier call that leaves a recycled issue carrying a message, params and an error
+// in the pool (LIFO: the catalogue entry's issue is built on that object).
+func c11PreHistory(x *mc.X) string {
+	switch x.Choose(3, "preHistory") {
+	case 1:
+		var d string
+		z.String().Min(5, z.Message("stale-message")).Catch("c").Parse("ab", &d)
+		return "caught issue with custom message released"
+	case 2:
+		var d int
+		l := z.Int().GT(5, z.Message("stale-message-2")).Parse("abc", &d)
+		l2 := z.Int().GT(5, z.Message("stale-message-2")).Parse(1, &d)
+		z.Issues.CollectList(l)
+		z.Issues.CollectList(l2)
+		return "coerce + test issues collected"
+	}
+	return "none"
+}
+
 type c11Config struct {
 	global   int // 0 default formatter; 1.. i18n variants
 	defLang  string
@@ -299,6 +318,7 @@ func c11Scenario(ei int) mc.Scenario {
 		place := x.Choose(3, "placement") // 0 top, 1 struct field, 2 slice element
 		cfg := c11ChooseConfig(x, &e)
 		cfg.install()
+		pre := c11PreHistory(x)
 		leaf := e.mk(cfg.testOpts()...)
 		var schema z.ZogSchema
 		var dest reflect.Value
@@ -344,7 +364,7 @@ func c11Scenario(ei int) mc.Scenario {
 		zh.Reset()
 		out := &mc.Outcome{Traces: 1, Nontrivial: true}
 		out.Sig = fmt.Sprintf("%s|%d|%d|%s", e.name, mode, place, cfg)
-		desc := fmt.Sprintf("%s mode=%s placement=%d %s", e.name, []string{"Parse", "Validate"}[mode], place, cfg)
+		desc := fmt.Sprintf("%s mode=%s placement=%d %s pre-history=%s", e.name, []string{"Parse", "Validate"}[mode], place, cfg, pre)
 		fail := func(key, what, exp, got string) *mc.Outcome {
 			x.Note("case: %s", desc)
 			out.Viol = append(out.Viol, &mc.Violation{Key: key, What: what, Expected: exp, Observed: got})
@@ -457,7 +477,7 @@ func c11FrontScenario(x *mc.X) *mc.Outcome {
 func init() {
 	Register(&Prop{
 		ID:    "C11",
-		Rule:  "the finite catalogue, completely: one execution = one (built-in test or required/not_nil/coerce of a schema type | front-end decode issue | Custom schema issue) × mode × placement {top, field, element} × test-level {none, Message, MessageFunc} × execution-level {none, WithIssueFormatter} × global {default formatter, i18n × default language {en,es} × context language {unset,en,es,unknown} × lang key {default, custom}}; every case is non-trivial (exactly one issue is produced and inspected); distinct = distinct configurations",
+		Rule:  "the finite catalogue, completely: one execution = one (built-in test or required/not_nil/coerce of a schema type | front-end decode issue | Custom schema issue) × mode × placement {top, field, element} × test-level {none, Message, MessageFunc} × execution-level {none, WithIssueFormatter} × global {default formatter, i18n × default language {en,es} × context language {unset,en,es,unknown} × lang key {default, custom}} × pre-history {none, a caught issue with a custom message released, coerce+test issues collected}; every case is non-trivial (exactly one issue is produced and inspected); distinct = distinct configurations",
 		Floor: 100,
 		Bound: func(tier string) string {
 			return fmt.Sprintf("%d catalogue entries + 5 front-end/custom cases, full product of all configuration dimensions", len(c11Catalogue()))
